@@ -299,6 +299,31 @@ noncomputable def lawful_ec (h34 : p % 4 = 3) : Lawful (opsSub K) (Pt p C.toCurv
   liftX_some := law_liftX_some K h34
   liftX_none := law_liftX_none K h34
 
+/-- **the group part, with NO hypothesis `p % 4 = 3`**: `Btc.EC.ops C` on the reduced valid pairs of the `n`-torsion is a
+`LawfulGroup` (every law of `Lawful` except the two about `lift_x`) for EVERY odd prime `p` — so for every catalogued
+curve with `p ≡ 1 (mod 4)` too (secp224k1, the Brainpool and NIST curves with such a `p`, …).  Theorems that never call
+`liftX` can be instantiated through this. -/
+noncomputable def lawfulGroup_ec : LawfulGroup (opsSub K) (Pt p C.toCurveGroup) where
+  abs := absSub
+  n_pos := K.n_pos
+  n_prime := K.n_prime
+  abs_zero := absA_of_y_eq_zero rfl
+  abs_add P Q := (add_closed K P.1 Q.1 P.2 Q.2).2
+  abs_neg P := (neg_closed K P.1 P.2).2
+  abs_mul m P := (mul_closed K m P.1 P.2).2
+  order P := P.2.2.2
+  isZero_iff := law_isZero K
+  gen_ne_zero := (absSub_ne_zero_iff _).mpr K.gen_ne
+  eq_iff := law_eq K
+  x_eq_iff := law_x_eq K
+  x_range := law_x_range K
+  y_neg := law_y_neg K
+  x_neg := law_x_neg K
+  y_congr := law_y_congr K
+
+/-- the two instances agree: `lawful_ec` forgets to `lawfulGroup_ec` -/
+theorem lawful_ec_toLawfulGroup (h34 : p % 4 = 3) : (lawful_ec K h34).toLawfulGroup = lawfulGroup_ec K := rfl
+
 end Laws
 
 end Btc.C01
